@@ -221,6 +221,21 @@ class FaultEngine(SingleBase):
                     self.v({"C13"}, "fault", "fault:other-pid-changed:%s" % name,
                            dict(detail, key=_jsonable(key), before=_jsonable(pre_obs[key]), after=_jsonable(post_obs.get(key))))
                     return
+            if name == "div":
+                # C06 under an I/O error: "a valid verdict never rejects or deletes anything" -- whatever else
+                # the call does (it may well fail with the I/O error), with CORRECT expectations it must not
+                # answer with a mismatch error and must not remove the object
+                m2 = pre.clone()
+                exp = m2.apply(call)
+                if exp.has_ok:
+                    cid = pre.cid_of(w.contents[call["c"]])
+                    if out[0] == "exc" and out[1] in ("NonMatchingChecksum", "NonMatchingObjSize"):
+                        self.v({"C06"}, "fault", "fault:valid-verdict-rejected:%s" % out[1], dict(detail))
+                        return
+                    if cid in pre.objs and cid not in a["objs"]:
+                        self.v({"C06", "C04"}, "fault", "fault:valid-verdict-deleted-object", dict(detail))
+                        return
+                return
             if out[0] == "ok":
                 # (1) success reported => whole effect achieved (residue ignored)
                 m2 = pre.clone()
